@@ -339,10 +339,6 @@ func (mq *MessageQueue) AddBroadcastWantHaves(wantHaves []cid.Cid) {
 	for _, c := range wantHaves {
 		mq.bcstWants.add(c, mq.priority, pb.Message_Wantlist_Have)
 		mq.priority--
-
-		// We're adding a want-have for the cid, so clear any pending cancel
-		// for the cid
-		mq.cancels.Remove(c)
 	}
 
 	mq.wllock.Unlock()
@@ -362,18 +358,10 @@ func (mq *MessageQueue) AddWants(wantBlocks []cid.Cid, wantHaves []cid.Cid) {
 	for _, c := range wantHaves {
 		mq.peerWants.add(c, mq.priority, pb.Message_Wantlist_Have)
 		mq.priority--
-
-		// We're adding a want-have for the cid, so clear any pending cancel
-		// for the cid
-		mq.cancels.Remove(c)
 	}
 	for _, c := range wantBlocks {
 		mq.peerWants.add(c, mq.priority, pb.Message_Wantlist_Block)
 		mq.priority--
-
-		// We're adding a want-block for the cid, so clear any pending cancel
-		// for the cid
-		mq.cancels.Remove(c)
 	}
 
 	mq.wllock.Unlock()
@@ -774,6 +762,17 @@ func (mq *MessageQueue) extractOutgoingMessage(supportsHave bool) (bsmsg.BitSwap
 		}
 		peerEntries = filteredPeerEntries
 	}
+	// A want added after a cancel was queued overrides the cancel, but only
+	// once the want is really sent (see markSent below): if the want is
+	// cancelled again first, the peer still has the earlier want and needs
+	// the cancel. Meanwhile the cancel stays queued and is not sent.
+	queuedCancels := cancels
+	cancels = cancels[:0]
+	for _, c := range queuedCancels {
+		if !mq.peerWants.pending.Has(c) && !mq.bcstWants.pending.Has(c) {
+			cancels = append(cancels, c)
+		}
+	}
 	mq.wllock.Unlock()
 	verifPoint(1, len(cancels), len(peerEntries), len(bcstEntries))
 
@@ -838,6 +837,9 @@ FINISH:
 			// It changed.
 			mq.msg.Remove(e.Cid)
 			peerEntries[i].Cid = cid.Undef
+		} else {
+			// The want is being sent, so clear any queued cancel for the cid
+			mq.cancels.Remove(e.Cid)
 		}
 	}
 
@@ -845,6 +847,8 @@ FINISH:
 		if !mq.bcstWants.markSent(e) {
 			mq.msg.Remove(e.Cid)
 			bcstEntries[i].Cid = cid.Undef
+		} else {
+			mq.cancels.Remove(e.Cid)
 		}
 	}
 
